@@ -50,6 +50,8 @@ pub enum Op {
     Identity,
     /// `map(|x| x)` (only used by shape variants)
     MapId,
+    /// `filter_map(decay)`: strictly decreasing value, drops items at 0 (feedback cycles)
+    Decay,
     // ---- stateful unary
     Persist,
     Unique { p: Pers },
@@ -93,6 +95,23 @@ pub enum Op {
     DemuxEnum { f: u8 },
     /// `map(|x| (g0(x), g1(x))) -> unzip()`: 2 outputs
     Unzip { f: u8 },
+    // ---- handoff pseudo-operators (reference targets, C25): 1 input, 0 or 1 output
+    /// `singleton()`: exactly one item per tick by construction
+    HoffSingleton,
+    /// `optional()`: at most one item per tick by construction
+    HoffOptional,
+    /// `handoff()`: any number of items
+    HoffVec,
+    /// `map` whose closure reads (`write == false`) or updates (`write == true`) the value held
+    /// by handoff node `target` through `#{group} [mut] name`, logging `(group, item, value seen)`
+    RefMap { target: usize, group: u32, write: bool, f: u8 },
+    // ---- loop blocks (C26)
+    /// `batch()`: first operator inside a loop on an edge entering it
+    Batch,
+    /// `batch_lazy()`
+    BatchLazy,
+    /// `all_iterations()`: first operator outside a loop on an edge leaving it
+    AllIterations,
     // ---- sinks
     Sink { id: usize },
     Null,
@@ -112,6 +131,7 @@ impl Op {
             Op::Inspect { .. } => "inspect",
             Op::Identity => "identity",
             Op::MapId => "map_id",
+            Op::Decay => "filter_map",
             Op::Persist => "persist",
             Op::Unique { .. } => "unique",
             Op::MultisetDelta => "multiset_delta",
@@ -144,6 +164,14 @@ impl Op {
             Op::Partition { .. } => "partition",
             Op::DemuxEnum { .. } => "demux_enum",
             Op::Unzip { .. } => "unzip",
+            Op::HoffSingleton => "singleton",
+            Op::HoffOptional => "optional",
+            Op::HoffVec => "handoff",
+            Op::RefMap { write: false, .. } => "ref_read",
+            Op::RefMap { write: true, .. } => "ref_write",
+            Op::Batch => "batch",
+            Op::BatchLazy => "batch_lazy",
+            Op::AllIterations => "all_iterations",
             Op::Sink { .. } => "for_each",
             Op::Null => "null",
         }
@@ -179,6 +207,15 @@ pub struct Program {
     pub n_inspect: usize,
     /// statement emission order (a permutation of node indices); shape variants shuffle it
     pub emit_order: Vec<usize>,
+    /// loop blocks: parent loop of each loop (`None` = root-level loop)
+    #[serde(default)]
+    pub loops: Vec<Option<usize>>,
+    /// per node: the loop block it is declared in (empty = no loops in the program)
+    #[serde(default)]
+    pub node_loop: Vec<Option<usize>>,
+    /// number of reference logs (one per referenced handoff)
+    #[serde(default)]
+    pub n_refs: usize,
 }
 
 impl Program {
@@ -216,6 +253,28 @@ impl Program {
                 succ[s.node].push(i);
             }
         }
+        // references: the handoff is settled before any reference holder runs; holders run in
+        // access-group order; the pipe consumers of the handoff run after all holders
+        let mut extra: Vec<(usize, usize)> = vec![];
+        for (i, nd) in self.nodes.iter().enumerate() {
+            if let Op::RefMap { target, group, .. } = nd.op {
+                extra.push((target, i));
+                for (j, other) in self.nodes.iter().enumerate() {
+                    if let Op::RefMap { target: t2, group: g2, .. } = other.op {
+                        if t2 == target && g2 > group {
+                            extra.push((i, j));
+                        }
+                    }
+                    if !other.op.is_delay() && !matches!(other.op, Op::RefMap { .. }) && other.ins.iter().any(|s| s.node == target) {
+                        extra.push((i, j));
+                    }
+                }
+            }
+        }
+        for (a, b) in extra {
+            indeg[b] += 1;
+            succ[a].push(b);
+        }
         let mut ready: Vec<usize> = (0..n).filter(|i| indeg[*i] == 0).collect();
         ready.reverse();
         let mut out = Vec::with_capacity(n);
@@ -229,6 +288,32 @@ impl Program {
             }
         }
         if out.len() == n { Some(out) } else { None }
+    }
+    /// Reference log id per referenced handoff node (in order of first use by node index).
+    pub fn ref_ids(&self) -> std::collections::BTreeMap<usize, usize> {
+        let mut m = std::collections::BTreeMap::new();
+        for nd in &self.nodes {
+            if let Op::RefMap { target, .. } = nd.op {
+                let k = m.len();
+                m.entry(target).or_insert(k);
+            }
+        }
+        m
+    }
+    pub fn loop_depth(&self, l: Option<usize>) -> usize {
+        let mut d = 0;
+        let mut l = l;
+        while let Some(x) = l {
+            d += 1;
+            l = self.loops[x];
+        }
+        d
+    }
+    pub fn loop_of(&self, node: usize) -> Option<usize> {
+        self.node_loop.get(node).copied().flatten()
+    }
+    pub fn has_loops(&self) -> bool {
+        !self.loops.is_empty()
     }
     pub fn op_names(&self) -> Vec<&'static str> {
         self.nodes.iter().map(|n| n.op.name()).collect()
